@@ -1,0 +1,10 @@
+//go:build verif
+
+// Machine-checked contracts for this package (comment-only; compiled only under the
+// build tag `verif`, where it still contains no code). Checked by /verif/govc.
+package types
+
+// Price of one pool share: reads the oracle and the accounted pool, writes nothing.
+//@ func (*Pool).LpTokenPrice
+//@ modifies nothing
+//@ frame-only
